@@ -14,6 +14,11 @@ for f in sys.argv[1:]:
         mm=re.search(r'check_quick=(.*)$',rest)
         d['check_quick']=mm.group(1).strip() if mm else ''
         res[pid]=d
+retest={}
+if os.path.exists('/verif/seeded/seedretest.log'):
+    for l in open('/verif/seeded/seedretest.log'):
+        m=re.match(r'RETEST (\S+) (.*)',l.strip())
+        if m: retest[m.group(1)]=m.group(2)
 props={json.loads(l)['id']:json.loads(l) for l in open('/verif/properties.jsonl')}
 extra=json.load(open('/verif/seeded/extra.json')) if os.path.exists('/verif/seeded/extra.json') else {}
 for name,d in sorted(res.items()):
@@ -40,6 +45,8 @@ for name,d in sorted(res.items()):
         "ran":"tools/seedcheck.sh "+pid+(" <agent output dir> "+name if name!=pid else "")+"  (scratch git worktree of /repo: git apply, go build ./..., go test of touched packages + dependants, demo with and without the change; then tools/mutant.sh seeded/"+name+"/patch.diff "+pid+" quick)"},
      "check_result_quick":d.get('check_quick'),
     }
+    if name in retest:
+        meta['confirmed_by_lead']['existing_tests_retest_of_chord_and_gateway(tools/seedretest.sh, up to 3 attempts)']=retest[name]
     meta.update(extra.get(name,{}))
     json.dump(meta,open(dirn+'/meta.json','w'),indent=1)
 print(len(res),'meta files')
